@@ -37,6 +37,9 @@ CHECKS = {
  "C06": ("exploration", "runtime monitor: (infixExpand {...}) tree vs independent precedence-climbing parse of the same tokens; twin evaluation block vs prefix form; semantic programs vs Go-computed expectations",
          "All operator sequences of length 1-2 (quick) / 1-3 (thorough) over the 18 binary operators in three spacings with rotating operand kinds, plus random long sequences, are expanded by the real Pratt parser and compared with an independent parse under the documented table; each block is also evaluated against its prefix form in a twin interpreter; statement lists, if/else, all for-header shapes, labelled break/continue and indexed assignment are checked against closed-form expectations.",
          "Trusted: the documented binding-power table as transcribed in the harness; printed operand forms taken from the unchanged tree; ambiguous sign spellings excluded.", "DESIGN.md §4.C06"),
+ "C13": ("exploration", "runtime monitor: whole-vs-pieces twin parses at every cut position, prefix classifier for the more-input decision, fresh-vs-history twin parses on the interpreter's own parser, last-token twin evaluations",
+         "Every single cut (exhaustive), every pair of cuts of short texts and random multi-cuts of corpus windows, generated programs and infix renderings are delivered to the real parser and compared with the whole-text parse; intermediate returns are judged by a bracket/string/comment classifier; histories of successful, failed and abandoned loads must not change how a probe is read; a final token without trailing whitespace must not be lost through EvalString.",
+         "Trusted: the 60-line prefix classifier (only consulted where it is certain); only texts valid as a whole are cut.", "DESIGN.md §4.C13"),
 }
 
 NA_REASON = {}
